@@ -724,7 +724,7 @@ SA((au::seconds(3) - std::chrono::milliseconds(5)).in(au::milli(au::seconds)) ==
 SA(au::as_quantity(std::chrono::hours(2)) == au::hours(2)); SA(au::as_chrono_duration(au::minutes(2)) == std::chrono::seconds(120));
 constexpr std::chrono::nanoseconds ns = au::seconds(2); SA(ns.count() == 2000000000);
 SA(au::int_pow<2>(a) == au::squared(mtr)(49)); SA(au::inverse_as(au::inverse(au::seconds), au::micro(au::seconds)(4)) == au::inverse(au::seconds)(250000));
-SA(au::copysign(mtr(3.0), -1.0) == mtr(-3.0) && au::copysign(3.0, mtr(-1.0)) == -3.0 && !au::isnan(mtr(1.0)) && !au::isnan(kel_pt(1.0)));
+SA(!au::isnan(mtr(1.0)) && !au::isnan(kel_pt(1.0)));   // (constexpr copysign: separate probe, see CONSTEXPR_COPYSIGN_PROGRAM)
 SA(std::numeric_limits<au::Quantity<Mtr, int8_t>>::max() == mtr(int8_t{127}) && std::numeric_limits<au::Quantity<Mtr, int8_t>>::lowest() == mtr(int8_t{-128}));
 SA(au::get_value<int>(au::mag<360>() / au::mag<8>()) == 45 && au::unit_ratio(au::kilo(mtr), mtr) == au::mag<1000>());
 SA(au::unit_label(mtr)[0] == 'm' && sizeof(au::unit_label(au::kilo(mtr))) == 5 && au::mag_label(au::mag<12>())[1] == '2');
@@ -786,14 +786,31 @@ def build(rng):
 SECTIONS = [sec_quantity_same, sec_quantity_mixed, sec_qlike_zero, sec_points, sec_wrappers, sec_constant_mag_traits, sec_math_io, sec_standard_dependent]
 
 
+# ---- small agreement probes: each must be accepted (and link) alike under all six configurations ----------------------
 # ODR-use of the `unit` static data members: a reference to / the address of a constexpr static data member needs a
 # namespace-scope definition in C++14 and none in C++17 (inline variables).  Kept apart from the big program so that a
-# missing definition names exactly the member.
-ODR_MEMBERS = [("Quantity::unit", "au::Quantity<au::Seconds, int>::unit"), ("QuantityMaker::unit", "au::QuantityMaker<au::Seconds>::unit"),
-               ("QuantityPoint::unit", "au::QuantityPoint<au::Seconds, int>::unit"), ("QuantityPointMaker::unit", "au::QuantityPointMaker<au::Seconds>::unit")]
-
-
-def odr_program(expr):
-    return ('#if defined(AU_C20_SINGLE)\n#include "au.hh"\n#else\n#include "au/au.hh"\n#endif\n#include <cstdio>\n'
-            'template <class T> const void *addr(const T &x) { return &x; }\n'
-            'int main() { std::printf("%%d\\n", addr(%s) != nullptr ? 1 : 0); return 0; }\n' % expr)
+# missing definition names exactly the member (the linker's "undefined reference to ...").
+_INC = '#if defined(AU_C20_SINGLE)\n#include "au.hh"\n#else\n#include "au/au.hh"\n#endif\n#include <cstdio>\n'
+ODR_UNIT_PROGRAM = _INC + r"""
+template <class T> const void *addr(const T &x) { return &x; }
+int main() {
+    auto q = au::seconds(3);
+    auto p = au::make_quantity_point<au::Seconds>(3);
+    int n = 0;
+    n += addr(q.unit) != nullptr;                                    // Quantity<U, R>::unit
+    n += addr(au::seconds.unit) != nullptr;                          // QuantityMaker<U>::unit
+    n += addr(p.unit) != nullptr;                                    // QuantityPoint<U, R>::unit
+    n += addr(au::QuantityPointMaker<au::Seconds>::unit) != nullptr; // QuantityPointMaker<U>::unit
+    std::printf("%d\n", n);
+    return n == 4 ? 0 : 1;
+}
+"""
+# `au::copysign` is declared constexpr; whether a constant expression may call it must not depend on the compiler
+CONSTEXPR_COPYSIGN_PROGRAM = _INC + r"""
+constexpr auto a = au::copysign(au::seconds(3.0), -1.0);               // copysign(Quantity, T)
+constexpr auto b = au::copysign(3.0, au::seconds(-1.0));               // copysign(T, Quantity)
+constexpr auto c = au::copysign(au::seconds(3.0), au::minutes(-1.0));  // copysign(Quantity, Quantity)
+static_assert(a == au::seconds(-3.0) && b == -3.0 && c == au::seconds(-3.0), "copysign");
+int main() { return 0; }
+"""
+MINI_PROBES = [("odr-static-unit", ODR_UNIT_PROGRAM, "link"), ("constexpr-copysign", CONSTEXPR_COPYSIGN_PROGRAM, "syntax")]
